@@ -63,7 +63,7 @@ Proof.
     destruct (libs_clone1 ls (s1, m1)) as [[[s2 m2] r] e2] eqn:E2. injection E as <- <- <- ->.
     cbn [flat_map] in Hnd, Hfree. destruct (Hpre l (or_introl eq_refl)) as [Hl Hkl].
     destruct (ry_lib s0 s m l s1 m1 l' U0 HRD Y Hl Hkl (nodup_app_l _ _ Hnd) (fun y Hy => Hfree y (in_or_app _ _ _ (or_introl Hy))) E1)
-      as [Y1 [Sb1 [Ky1 [Hin [Hl' [Hn1 [Hf1 [Hp1 [Hk1 Himg1]]]]]]]]].
+      as [Y1 [Sb1 [Ky1 [Hin [Hl' [Hn1 [Hf1 [Hp1 [Hk1 [Himg1 _]]]]]]]]]].
     assert (Hfree1 : forall y, In y (flat_map (lib_objects s0) ls) -> ~ In y (map fst m1)).
     { intros y Hy Hin1. apply Ky1 in Hin1 as [Hin1|Hin1]; [apply (nodup_app_disj _ _ y Hnd Hin1 Hy)|apply (Hfree y (in_or_app _ _ _ (or_intror Hy)) Hin1)]. }
     destruct (IH s1 m1 s2 m2 r Y1 (fun z Hz => Hpre z (or_intror Hz)) (nodup_app_r _ _ Hnd) Hfree1 E2)
@@ -117,75 +117,6 @@ Proof.
 Qed.
 Lemma kids_def_rr m s d' : kids (fst (def_rr m s d')) = kids s.
 Proof. apply (proj1 (ce_def_rr m s d')). Qed.
-
-(* ---- finality: after the pass with the final memo, references and reference sets are settled ---- *)
-Definition FinX (s0 : state) (M : memo) (s : state) (x' : id) : Prop :=
-  forall x, In (x, x') M -> kind_of s0 x = Some KInstance -> iref s x' = remap_ref M (iref s0 x).
-Definition FinD (M : memo) (s : state) (d' : id) : Prop :=
-  NoDup (drefs s d') /\ forall n, In n (drefs s d') -> ~ In n (map fst M).
-
-Lemma vals_not_keys s0 s M a b : ST s0 s M -> In (a, b) M -> ~ In b (map fst M).
-Proof.
-  intros T H Hin. apply in_map_iff in Hin as [[a1 b1] [E1 Hin]]. cbn in E1. subst a1.
-  destruct (st_rng _ _ _ T a b H). destruct (st_rng _ _ _ T b b1 Hin). lia.
-Qed.
-
-Lemma remap_ref_idem s0 s M o : ST s0 s M -> remap_ref M (remap_ref M o) = remap_ref M o.
-Proof.
-  intro T. destruct o as [e|]; [|reflexivity]. cbn. destruct (mget M e) as [e'|] eqn:Em; cbn; [|rewrite Em; reflexivity].
-  destruct (mget M e') as [z|] eqn:Ez; [|reflexivity]. exfalso. apply (vals_not_keys s0 s M e e' T (mget_in _ _ _ Em)). apply (mget_key M e' z Ez).
-Qed.
-
-Lemma fin_def_rr s0 s s' M d d' :
-  UF s0 -> (forall x e, iref s0 x = Some e -> kind_of s0 e = Some KDefinition) ->
-  RY s0 s M -> In (d, d') M -> kind_of s0 d = Some KDefinition -> def_rr M s d' = (s', None) ->
-  RY s0 s' M /\ kids s' = kids s /\ par s' = par s /\ next s' = next s /\ kind_of s' = kind_of s /\
-  FinD M s' d' /\ (forall x', In x' (kids s RChildren d') -> FinX s0 M s' x') /\
-  (forall y, FinX s0 M s y -> FinX s0 M s' y) /\ (forall y, y <> d' -> drefs s' y = drefs s y).
-Proof.
-  intros U0 HRD Y Hdd Hkd E.
-  destruct (ry_def_rr s0 s s' M d d' U0 Y Hdd Hkd (fun x e _ Hr _ => HRD x e Hr) E) as [Y' [A [B [C [D [F [G Hdr]]]]]]].
-  pose proof (ri_st _ _ _ (rx_ri _ _ _ (ry_rx _ _ _ Y))) as T.
-  split; [exact Y'|]. split; [exact A|]. split; [exact B|]. split; [exact C|]. split; [exact D|]. split; [|split; [|split]].
-  - unfold FinD. rewrite Hdr, upd_same. split; [apply dedup_keep_NoDup|]. intros n Hn. apply (proj1 (dedup_keep_In _ _)) in Hn.
-    apply in_map_iff in Hn as [y [Ey Hy]]. destruct (mget M y) as [y'|] eqn:Em.
-    + subst n. apply (vals_not_keys s0 s M y y' T (mget_in _ _ _ Em)).
-    + subst n. intro Hin. apply assoc_In_fst in Hin as [v Hv]. unfold mget in Em. rewrite Hv in Em. discriminate.
-  - intros x' Hx' x Hxx Hkx. rewrite (G x' Hx').
-    destruct (ry_ir _ _ _ Y x x' Hxx Hkx) as [H1|[e [e' [P [Q S]]]]].
-    + rewrite H1. reflexivity.
-    + rewrite S, P. cbn. rewrite (in_mget M e e' (st_fun _ _ _ T) Q).
-      destruct (mget M e') as [z|] eqn:Ez; [exfalso; apply (vals_not_keys s0 s M e e' T Q); apply (mget_key M e' z Ez)|reflexivity].
-  - intros y Hy x Hxx Hkx. destruct (in_dec Nat.eq_dec y (kids s RChildren d')) as [Hin|Hout].
-    + rewrite (G y Hin), (Hy x Hxx Hkx). apply (remap_ref_idem s0 s M _ T).
-    + rewrite (F y Hout). apply (Hy x Hxx Hkx).
-  - intros y Hy. rewrite Hdr. unfold upd. apply Nat.eqb_neq in Hy. rewrite Hy. reflexivity.
-Qed.
-
-Lemma fin_defs s0 M : UF s0 -> (forall x e, iref s0 x = Some e -> kind_of s0 e = Some KDefinition) ->
-  forall ds ds' s s',
-  RY s0 s M -> Forall2 (fun d d' => In (d, d') M) ds ds' -> (forall d, In d ds -> kind_of s0 d = Some KDefinition) ->
-  fold_idsR (def_rr M) ds' s = (s', None) ->
-  RY s0 s' M /\ kids s' = kids s /\ par s' = par s /\ next s' = next s /\ kind_of s' = kind_of s /\
-  (forall d', In d' ds' -> FinD M s' d' /\ forall x', In x' (kids s RChildren d') -> FinX s0 M s' x') /\
-  (forall y, FinX s0 M s y -> FinX s0 M s' y) /\ (forall y, FinD M s y -> FinD M s' y) /\
-  (forall y, ~ In y ds' -> drefs s' y = drefs s y).
-Proof.
-  intros U0 HRD. induction ds as [|d ds IH]; intros ds' s s' Y F2 Hk E; inversion F2 as [|? d' ? ds2 Hdd F2']; subst; cbn [fold_idsR] in E.
-  - injection E as <-. split; [exact Y|split; [reflexivity|split; [reflexivity|split; [reflexivity|split; [reflexivity|split; [intros z []|split; [auto|split; [auto|auto]]]]]]]].
-  - destruct (def_rr M s d') as [s1 [e|]] eqn:E1; cbn [bindR] in E; [discriminate|].
-    destruct (fin_def_rr s0 s s1 M d d' U0 HRD Y Hdd (Hk d (or_introl eq_refl)) E1) as [Y1 [A [B [C [D [FD [FX [PX PD]]]]]]]].
-    destruct (IH ds2 s1 s' Y1 F2' (fun z Hz => Hk z (or_intror Hz)) E) as [Y2 [A2 [B2 [C2 [D2 [FA [PX2 [PD2 PO2]]]]]]]].
-    assert (PDs : forall y, FinD M s y -> FinD M s1 y).
-    { intros y Hy. destruct (Nat.eq_dec y d') as [->|Hne]; [exact FD|]. unfold FinD in *. rewrite (PD y Hne). exact Hy. }
-    split; [exact Y2|]. split; [congruence|]. split; [congruence|]. split; [congruence|]. split; [congruence|]. split; [|split; [|split]].
-    + intros z [<-|Hz].
-      * split; [apply PD2; exact FD|]. intros x' Hx'. apply PX2. apply FX. exact Hx'.
-      * destruct (FA z Hz) as [H1 H2]. split; [exact H1|]. intros x' Hx'. apply H2. rewrite A. exact Hx'.
-    + intros y Hy. apply PX2, PX, Hy.
-    + intros y Hy. apply PD2, PDs, Hy.
-    + intros y Hy. rewrite PO2 by (intro H; apply Hy; right; exact H). apply PD. intros ->. apply Hy. left. reflexivity.
-Qed.
 
 Lemma fin_libs s0 M : UF s0 -> (forall x e, iref s0 x = Some e -> kind_of s0 e = Some KDefinition) ->
   forall ls ls' s s',
